@@ -552,6 +552,31 @@ def spec_glom_entry(col):
             return
 
 
+
+def literal_bindings_do_not_outlive_the_call(col):
+    """S(name=<container literal>) binds a container built for THIS call: mutating it in place through the scope (A.name[key],
+    S.name.append(..)) is invisible to the next evaluation of the same spec object, and to sibling evaluations of the step"""
+    cases = [
+        ('S(seen={}) + A.seen[k]', lambda: (S(seen={}), Coalesce(S.seen['k'], (A.seen['k'], Val('nothing bound yet')))),
+         'call', 'nothing bound yet'),
+        ('S(acc=[]) + S.acc.append', lambda: (S(acc=[]), [S.acc.append(T)], S.acc), [1, 2], [1, 2]),
+        ('S(acc=[[]]) nested', lambda: (S(acc=[[]]), [S.acc[0].append(T)], S.acc), [1, 2], [[1, 2]]),
+        ("S(d={'n': []})", lambda: (S(d={'n': []}), [S.d['n'].append(T)], S.d), [3], {'n': [3]}),
+        ('S(acc=[]) per list element', lambda: [(S(acc=[]), S.acc.append(T), S.acc)], [1, 2, 3], [[1], [2], [3]]),
+        # (not Vars(items=[]): the initial values of a Vars are the very objects given, like Val(..) - a mutable one is shared)
+    ]
+    for desc, mk, target, want in cases:
+        spec = mk()
+        for n in (1, 2, 3):
+            got = call(G, target, spec)
+            col.case(('literal-binding', desc, n), True)
+            col.count('reader_observations')
+            if not got.ok or got.value != want:
+                col.violation('C07/literal-binding-outlives-the-call' if n > 1 else 'C07/literal-binding-wrong-on-first-call',
+                              '%s, evaluation #%d of one spec object on %r: %r, expected %r' % (desc, n, target, got, want), None)
+                break
+
+
 def matchdict_two_keys(col, rng):
     """a Match-dict key passes its bindings to its own value spec only: constant key + binding key, both target orders"""
     for binder_name, binder in (('A.k', A.k), ('S(k=)', S(k=Val('BOUND'))), ('Required(A.k)', Required(A.k)),
@@ -737,6 +762,7 @@ def run(ctx):
             systematic(col, rng, tracer)
             spec_glom_entry(col)
             matchdict_two_keys(col, rng)
+            literal_bindings_do_not_outlive_the_call(col)
         for i in range(ctx.n(6000, 40000)):
             one_case(col, rng, tracer)
         tracer.uninstall()
